@@ -2,7 +2,7 @@
    robustness is runtime behaviour and is explored by the harness, not proved).
    Only statements; each is closed by a lemma proved in theories/PagingProofs.v.
    GetRange is Pure.GetRange, regenerated from rpc/api/utils.go on every run. *)
-From ZV Require Import Prelude GoSem Paging PagingProofs.
+From ZV Require Import Prelude GoSem Paging PagingProofs RpcMsg RpcMsgProofs.
 From ZV.gen Require Import Consts Pure.
 Open Scope Z_scope.
 
@@ -109,7 +109,66 @@ Theorem C18_more_by_height_wrap_refuted :
   exists h height n, 0 < h /\ in_u64 height /\ h < height /\ more_loop_wrap h height 0 n <> [].
 Proof. exact more_loop_wrap_refuted. Qed.
 
+(* ---- "malformed, oversized or hostile JSON-RPC requests produce error responses and never terminate the server":
+   the decision of rpc/server (json.go parseMessage / readBatch, handler.go handleBatch / handleMsg / handleImmediate /
+   handleCallMsg / handleCall, the read loops of http and of the stream transports) modelled in RpcMsg.v and compared with
+   the real server over http, websocket and ipc on every run. *)
+(* no document of any class, alone or in a sequence on one connection, reaches the nil dereference *)
+Theorem C18_rpc_never_panics : forall t ds, handle_session t ds <> RpcPanic.
+Proof. exact handle_session_no_panic. Qed.
+
+(* a single message / a batch is answered with exactly one reply per element that JSON-RPC wants answered (not a
+   notification, not a response), in order, echoing the element's id (null when there is none to echo), never with a
+   parse error; an empty batch with one "invalid request" object; nothing at all only when nothing has to be answered *)
+Theorem C18_rpc_value_answered : forall t batch es,
+  exists l, handle_value true t batch es = Replies l /\
+  ((batch = true /\ es = [] /\ l = [(false, [(0, code_invalid_request)])]) \/
+   ((batch = false \/ es <> []) /\
+    ((filter needs_reply es = [] /\ l = []) \/
+     (filter needs_reply es <> [] /\
+      exists rs, l = [(batch, rs)] /\ length rs = length (filter needs_reply es) /\
+                 map fst rs = map reply_id (filter needs_reply es) /\
+                 Forall (fun r => snd r <> code_parse) rs)))).
+Proof. exact value_answered. Qed.
+
+(* what an element is answered with: a call with the outcome of dispatch, anything else with "invalid request" *)
+Theorem C18_rpc_answer_kind : forall t e,
+  snd (answer t e) = (if is_call (msg_of e) then call_kind t (msg_of e) else code_invalid_request) /\
+  (is_call (msg_of e) = true ->
+   call_kind t (msg_of e) = code_default \/ call_kind t (msg_of e) = code_method_not_found \/
+   call_kind t (msg_of e) = code_invalid_params \/ call_kind t (msg_of e) = kind_ran \/ call_kind t (msg_of e) = kind_any).
+Proof. intros t e. split; [apply answer_kind | apply call_kind_cases]. Qed.
+
+(* at most one reply document per document; a connection never carries more reply documents than documents *)
+Theorem C18_rpc_reply_documents_bounded : forall t ds,
+  handle_session t ds = Replies (session_replies t ds) /\
+  (length (session_replies t ds) <= length ds)%nat /\ (forall d, (length (doc_replies t d) <= 1)%nat).
+Proof. intros t ds. split; [apply handle_session_spec|]. split; [apply session_replies_bounded|]. intros d. apply doc_replies_at_most_one. Qed.
+
+(* over http a request is left without a body only when it is empty or consists of notifications / responses *)
+Theorem C18_rpc_http_silent_only_without_requests : forall d,
+  doc_replies THttp d = [] ->
+  d = DocEmpty \/ (exists e, d = DocSingle e /\ needs_reply e = false) \/
+  (exists es, d = DocBatch es /\ es <> [] /\ forall e, In e es -> needs_reply e = false).
+Proof. exact http_silent_only_without_requests. Qed.
+
+(* what readBatch's replacement of nil messages is for: without it a JSON null in message position, alone or anywhere
+   in a batch, is dereferenced by handleImmediate (on the dispatch goroutine of a stream transport: process exit) *)
+Theorem C18_rpc_null_without_replacement_refuted :
+  (forall t pre post, handle_session_nofix t [DocBatch (pre ++ ENull :: post)] = RpcPanic) /\
+  (forall t, handle_session_nofix t [DocSingle ENull] = RpcPanic).
+Proof. split; [exact nofix_null_panics | exact nofix_single_null_panics]. Qed.
+
 (* non-vacuity *)
+Example C18_rpc_example :
+  handle_session TStream [DocBatch [EObj (mkMsg (IdVal 1) (MName SfxNone DRun) true false false); ENull;
+                                    EObj (mkMsg IdAbsent (MName SfxNone DRun) false false false);
+                                    EObj (mkMsg (IdVal 2) MEmpty false true false); ENonObj;
+                                    EObj (mkMsg IdBad (MName SfxSubscribe DNotFound) true false false)];
+                          DocSyntax; DocSingle ENull]
+  = Replies [(true, [(1, kind_ran); (0, code_invalid_request); (0, code_invalid_request); (0, code_invalid_request)]);
+             (false, [(0, code_parse)])].
+Proof. vm_compute. reflexivity. Qed.
 Example C18_pages_example : map (fun i => page [10;11;12;13;14;15;16] i 3) [0;1;2;3;4294967295] = [[10;11;12];[13;14;15];[16];[];[]].
 Proof. vm_compute. reflexivity. Qed.
 Example C18_by_page_example : map (fun i => heights_of (acc_by_page 7 i 3)) [0;1;2;3;4194304;4294967295] = [[7;6;5];[4;3;2];[1];[];[];[]].
